@@ -244,6 +244,17 @@ class Interp:
             if str(rk).startswith("Ctor") or rk in ("Variant",):
                 return V(vname(n["res"]))
             if rk in ("Const", "AssocConst", "Static"):
+                # a constant / static of the analysed crate is its initialiser (arrays of literals, separators, tables)
+                if self.prog is not None and n["res"] in self.prog.fns and self.depth < 12:
+                    ch = self.prog.hir(n["res"])
+                    if ch is not None:
+                        self.depth += 1
+                        try:
+                            return self.ev(ch, {})
+                        except Undecided:
+                            pass
+                        finally:
+                            self.depth -= 1
                 return Opaque(n["res"])
             return Opaque(n.get("res", "path"))
         if k == "Ref":
@@ -887,6 +898,18 @@ class Interp:
             i = self.ev(n["args"][0], env)
             if isinstance(i, int):
                 return some(recv[i]) if 0 <= i < len(recv) else NONE
+        if isinstance(recv, (list, ListIter)) and len(n["args"]) == 2 and m in ("fold", "try_fold"):
+            items = recv if isinstance(recv, list) else recv.items[recv.pos:]
+            acc = self.ev(n["args"][0], env)
+            f = self.ev(n["args"][1], env)
+            for x in items:
+                acc = self.apply(f, [acc, x])
+                if m == "try_fold":
+                    if isinstance(acc, V) and acc.name in ("Option::Some", "Result::Ok", "ControlFlow::Continue"):
+                        acc = acc.args[0]
+                    else:
+                        return acc
+            return acc if m == "fold" else some(acc)
         if isinstance(recv, (list, ListIter)) and not n["args"] and m in ("next_back", "last") and not (isinstance(recv, list) and m == "last" and False):
             items = recv if isinstance(recv, list) else recv.items[recv.pos:]
             if m == "next_back" or isinstance(recv, ListIter):
